@@ -449,8 +449,10 @@ ConsOf(obs) == UNION {{<<s.key, tc.inv, tc.p, tc.k, tc.ks, tc.card>> : tc \in s.
 KeysIn(obs) == UNION {{<<s.key, KeyOfTc(tc)>> : tc \in s.tcs} : s \in obs}
 Heads(obs) == {<<s.key, s.n>> : s \in obs}
 \* every (shape, direction, property, kind, cardinality, count) fact printed on a line or in a comment
-\* (with disable_exact_cardinality a '+' line may carry the figure of the exact cardinality it replaced: not a fact about '+')
-Facts(obs) == UNION {UNION {(IF tc.abs >= 0 /\ tc.ks = {} /\ ~(cfg.disableExact /\ tc.card = PLUS) THEN {<<s.key, tc.inv, tc.p, tc.k, tc.card, tc.abs>>} ELSE {}) \cup
+\* (with disable_exact_cardinality a '+' line may carry the figure of the exact cardinality it replaced: not a fact about '+'.
+\*  With keep_less_specific an exact cardinality is only ever selected when its count equals the count of '+' - the "useless
+\*  positive closure" rule - so there the figure of a generalised line *is* the figure of '+'.)
+Facts(obs) == UNION {UNION {(IF tc.abs >= 0 /\ tc.ks = {} /\ ~(cfg.disableExact /\ ~cfg.keepLess /\ tc.card = PLUS) THEN {<<s.key, tc.inv, tc.p, tc.k, tc.card, tc.abs>>} ELSE {}) \cup
                             {<<s.key, tc.inv, tc.p, f[1], f[2], f[3]>> : f \in {g \in tc.com : g[3] >= 0}} : tc \in s.tcs} : s \in obs}
 \* (shape, direction, property) groups in which the code resolves a frequency tie by dict-insertion order
 TieGroups ==
